@@ -173,7 +173,7 @@ struct Sim {
       case OP_M_ASSIGN: case OP_M_ASSIGN_EIGEN: case OP_M_MOVE_ASSIGN: case OP_M_COEFFWRITE: case OP_COEFFS:
       case OP_TM_ASSIGN: case OP_TM_ASSIGN_EIGEN: case OP_TM_COEFFWRITE: case OP_TM_SETZERO: case OP_TM_STREAM:
       case OP_T_NEG: case OP_DATAPTR: case OP_HAT: case OP_ZERO: case OP_GENERATOR: case OP_T_GENERATOR_M:
-      case OP_M_SETTERS: case OP_TM_BLOCKSET: case OP_T_ACCESSORS: case OP_CONSTRUCT:
+      case OP_M_SETTERS: case OP_TM_BLOCKSET: case OP_T_ACCESSORS: case OP_CONSTRUCT: case OP_STREAM: case OP_T_STREAM:
         return T_EXACT;
       case OP_INTERP_SLERP: case OP_INTERP_CUBIC: case OP_INTERP_SMOOTH: case OP_AVG_BIINV: case OP_AVG: case OP_AVG_FL:
       case OP_AVG_FR: case OP_DECASTELJAU:
@@ -312,6 +312,7 @@ struct Sim {
     for (int i = 0; i < vt->NT; ++i) plan.set(("lay_t" + std::to_string(i)).c_str(), (long)(rng.below(6) * 100 + (rng.chance(0.4) ? (1 + 2 * rng.below(2)) * 10 : 0) + (rng.chance(0.5) ? 0 : (rng.chance(0.5) ? 1 : 3))));
     for (int i = 0; i < vt->NE; ++i) {
       ElemSpec sp; sp.angle = rng.uniform(0.1, 2.9); sp.neg_hemisphere = rng.chance(0.3); sp.lin_lo = 1e-2; sp.lin_hi = 10;
+      if (rng.chance(0.12)) sp.angle = std::fabs(rng.logmag(1e-12, 1e-7));   // small-angle branches through views too
       double c[32]; gen_elem(vt, rng, sp, c);
       plan.steps.push_back(make_set(ST_SETE, 0, i, c, vt->rep));
     }
@@ -372,6 +373,7 @@ struct Sim {
         if (rng.chance(0.15) && (op == OP_INTERP_SLERP || op == OP_TM_PLUSEQ || op == OP_TM_MINUSEQ)) s.op.variant |= V_ALT;
         if (op == OP_M_MOVE_ASSIGN && rng.chance(0.6)) { s.op.variant |= V_ALT; s.op.kb = K_MAP; }
         if (rng.chance(0.3)) s.op.variant |= V_FRESH;
+        if (op == OP_COEFFS && rng.chance(0.5)) s.op.variant |= V_ALT;
         if (rng.chance(0.3) && op == OP_LOG && (vt->caps & (CAP_ASSO3 | CAP_BUNDLE))) s.op.variant |= V_SUB;
         ValKind vk = op_value_kind(op);
         if (inf.cls != C_MUT_E && inf.cls != C_MUT_T && rng.chance(0.4)) {
